@@ -551,7 +551,8 @@ Inductive op :=
 | OpCopy (src dst : nat)
 | OpRounds (slot : nat) (rounds : nat)       (* rounds x IncrementProposerPriority(1), proposer read each round *)
 | OpReport (slot : nat) (report : list validator)    (* calculateValidatorSetUpdates + updateState *)
-| OpCopyInc (src dst : nat) (times : Z).             (* dst := src.CopyIncrementProposerPriority(times) *)
+| OpCopyInc (src dst : nat) (times : Z)              (* dst := src.CopyIncrementProposerPriority(times) *)
+| OpRaw (slot : nat) (vals : list validator).        (* &ValidatorSet{Validators: vals}: priorities as given, no proposer recorded, nothing cached *)
 
 (** observation of a slot: TotalVotingPower(), GetProposer() (when asked), the validators *)
 Record obs := {
@@ -621,6 +622,9 @@ Definition step (st : list vset) (o : op) (ask : bool) : list vset * obs :=
     | None => let '(s', ob) := observe (slot_get st j) ask true UOk [] in (set_nth j s' st, ob)
     | Some s => let '(s', ob) := observe s ask false UOk [] in (set_nth j s' st, ob)
     end
+  | OpRaw i vals =>
+    let '(s', ob) := observe {| vs_vals := vals; vs_proposer := None; vs_total := 0 |} ask false UOk [] in
+    (set_nth i s' st, ob)
   | OpRounds i n =>
     match rounds_run (slot_get st i) n [] with
     | None => let '(s', ob) := observe (slot_get st i) ask true UOk [] in (set_nth i s' st, ob)
